@@ -514,6 +514,10 @@ class StdioClient:
         except Exception as e:
             logger.debug(f"Error during stdio client shutdown: {e}")
         finally:
+            # The negotiated protocol version belongs to the connection that
+            # just ended: a later connection on this object starts without one
+            self.batch_processor = BatchProcessor()
+
             # Always reap the child and release its pipes, even when the exit
             # itself is being cancelled
             if self.process:
